@@ -588,7 +588,11 @@ class HTTP1Connection(httputil.HTTPConnection):
         data_str = native_str(data.decode("latin1")).lstrip("\r\n")
         # RFC 7230 section allows for both CRLF and bare LF.
         eol = data_str.find("\n")
-        start_line = data_str[:eol].rstrip("\r")
+        start_line = data_str[:eol]
+        if start_line.endswith("\r"):
+            # Only a single CR may precede the LF that ends the line; any
+            # other CR is a bare CR and makes the start line invalid.
+            start_line = start_line[:-1]
         headers = httputil.HTTPHeaders.parse(data_str[eol:])
         return start_line, headers
 
